@@ -53,6 +53,14 @@ func (s *Scen) blockStep(m *blkMsg) *Step {
 	if bnd == "" && m.desc == "honest" && seen && env.Slot == par.Slot+1 {
 		bnd = "slot=parent_slot+1"
 	}
+	switch {
+	case m.desc == "honest":
+		bnd = joinTags(bnd, s.forkSlotTag("block", env.Slot))
+	case m.desc == "payload:timestamp+1":
+		bnd = joinTags(bnd, s.forkSlotTag("payload-timestamp", env.Slot))
+	case m.desc == "blobs:max+1":
+		bnd = joinTags(bnd, s.forkSlotTag("blob-count", env.Slot))
+	}
 	return &Step{Topic: "block", Desc: m.desc, Variant: m.variant, Bnd: bnd, Cond: cond, Key: map[string][]string{"block": {key}}, Now: m.now,
 		Run: func(b *Backend) gossipval.GossipValidatorResult {
 			return gossipval.ValidateBeaconBlock(context.Background(), env, b)
@@ -196,7 +204,9 @@ func (s *Scen) blockHistories(tier string, rng *rand.Rand) []*History {
 		// later-fork conditions of the block topic
 		f := chain.ForkAtEpoch(sp, sp.SlotToEpoch(ps.slot))
 		if f >= chain.Bellatrix {
-			if _, _, isDefault, ok := pre.LatestExecutionHeader(); ok && (!isDefault || f >= chain.Capella) {
+			if _, _, _, ok := pre.LatestExecutionHeader(); ok {
+				// the produced payload is never the default one, so execution is enabled (also for the merge
+				// transition block) and the timestamp condition applies
 				bad, _, ok := mkHonest(ps, chain.BlockPlan{Payload: chain.PayloadPlan{Mutate: func(p *chain.Payload) { p.Timestamp++; p.Seal(0) }}}, "payload:timestamp+1")
 				if ok {
 					bad.tsOK = false
